@@ -35,6 +35,8 @@ enum Op {
     Install { n: u8 },
     /// election timer fires on the async path while the transport refuses the broadcast
     ElectAsyncSendFails,
+    /// log compaction: truncate_log under a snapshot that covers all but the last entry (no trailing logs kept)
+    Compact,
 }
 
 #[derive(Clone, Debug, Default)]
@@ -54,14 +56,25 @@ struct Live {
     node: RaftNode,
     transport: Arc<FlakyTransport>,
     next_tag: u64,
+    /// the node's log with absolute positions as of the last step (keeps what a compaction drained)
+    full: Vec<(u64, u64)>,
 }
 
 fn block(tag: u64) -> Block {
     Block::new(BlockHeader::new(tag, [0u8; 32], [0u8; 32], [0u8; 32], "p".to_string()), vec![])
 }
+/// the node's log as (term, block height tag) per index from 1. After a compaction the node keeps only a
+/// suffix (log_base_index entries were drained): the drained prefix is taken from `known`, the log as the
+/// harness last saw it, so positions stay absolute.
+fn node_log_with(node: &RaftNode, known: &[(u64, u64)]) -> Vec<(u64, u64)> {
+    let st = node.verif_export();
+    let base = (st.log_base_index as usize).min(known.len());
+    let mut v: Vec<(u64, u64)> = known[..base].to_vec();
+    v.extend(st.log.iter().map(|e| (e.term, e.block.header.height)));
+    v
+}
 fn node_log(node: &RaftNode) -> Vec<(u64, u64)> {
-    let (_, _, entries, _) = node.get_entries_for_follower(&"nobody".to_string());
-    entries.iter().map(|e| (e.term, e.block.header.height)).collect()
+    node_log_with(node, &[])
 }
 
 /// transport of the node under test: delivers nowhere; `fail` makes send/broadcast return an error
@@ -123,7 +136,7 @@ impl RaftSubject {
     }
     fn open_node_t(dir: &str) -> Result<(RaftNode, Arc<FlakyTransport>), String> {
         let transport = Arc::new(FlakyTransport { id: ME.to_string(), fail: std::sync::atomic::AtomicBool::new(false) });
-        RaftNode::with_wal(ME.to_string(), vec!["n2".into(), "n3".into()], transport.clone(), RaftConfig::default(), format!("{dir}/raft.wal")).map(|n| (n, transport)).map_err(|e| e.to_string())
+        RaftNode::with_wal(ME.to_string(), vec!["n2".into(), "n3".into()], transport.clone(), RaftConfig { snapshot_trailing_logs: 0, ..RaftConfig::default() }, format!("{dir}/raft.wal")).map(|n| (n, transport)).map_err(|e| e.to_string())
     }
 }
 
@@ -137,7 +150,8 @@ impl Subject for RaftSubject {
     fn open(&self, dir: &str, _epoch: usize) -> Result<Live, String> {
         let (node, transport) = Self::open_node_t(dir)?;
         let next_tag = 1000 + node_log(&node).len() as u64 * 10;
-        Ok(Live { node, transport, next_tag })
+        let full = node_log(&node);
+        Ok(Live { node, transport, next_tag, full })
     }
     fn initial_model(&self) -> Model {
         Model::default()
@@ -146,6 +160,9 @@ impl Subject for RaftSubject {
         let mut m = m.clone();
         let node = &live.node;
         let cur = node.current_term();
+        // the live node's log with absolute positions (the model keeps what a compaction drained)
+        let known: Vec<(u64, u64)> = live.full.clone();
+        let node_log = |n: &RaftNode| node_log_with(n, &known);
         match op {
             Op::Rv { cand, dterm, fresh } => {
                 let c = format!("n{cand}");
@@ -229,6 +246,14 @@ impl Subject for RaftSubject {
                     }
                 }
             }
+            Op::Compact => {
+                let log = node_log(node);
+                if log.len() >= 2 {
+                    let idx = log.len() as u64 - 1;
+                    let meta = tensor_chain::raft::SnapshotMetadata::new(idx, log[idx as usize - 1].0, [0u8; 32], vec![ME.to_string(), "n2".into(), "n3".into()], 0);
+                    let _ = node.truncate_log(&meta);
+                }
+            }
             Op::ElectAsyncSendFails => {
                 live.transport.fail.store(true, std::sync::atomic::Ordering::SeqCst);
                 let _ = block_on(node.start_election_async());
@@ -241,6 +266,7 @@ impl Subject for RaftSubject {
                 }
             }
         }
+        live.full = node_log_with(&live.node, &known);
         m
     }
     fn recover_and_check(&self, dir: &str, states: &[Model], lo: usize, hi: usize, _epoch: usize) -> Result<Model, (String, String)> {
@@ -315,6 +341,7 @@ fn alphabet(level: u8) -> Vec<Op> {
             Op::ElectAsyncSendFails,
             Op::Install { n: 0 },
             Op::Install { n: 2 },
+            Op::Compact,
         ],
     }
 }
@@ -368,7 +395,7 @@ fn main() {
     }
     let mut rep = Report::new("C10", "fault_enumeration");
     let thorough = rep.thorough();
-    rep.rule("histories: all sequences (quick <=3, thorough <=4) of {RequestVote from 2 candidates at term/term+1 with fresh/stale log, AppendEntries with 0-2 entries / higher term / conflicting suffix, election timeout, winning vote, ack, propose, higher-term response} on a real RaftNode::with_wal; crash images: every I/O-op boundary and every byte cut of every WAL write; epochs 2-3 continue on the node restarted from every distinct (thorough) / landmark (quick) image. non-trivial = torn image");
+    rep.rule("histories: all sequences (quick <=3, thorough <=4) of {RequestVote from 2 candidates at term/term+1 with fresh/stale log, AppendEntries with 0-2 entries / higher term / conflicting suffix, election timeout, winning vote, ack, propose, higher-term response, snapshot install (snapshot produced by a real leader node), async election with a transport that refuses the broadcast, log compaction (truncate_log, no trailing entries kept; the log is compared by absolute position)} on a real RaftNode::with_wal; crash images: every I/O-op boundary and every byte cut of every WAL write; epochs 2-3 continue on the node restarted from every distinct (thorough) / landmark (quick) image. non-trivial = torn image");
     rep.assume("crash model: prefix persistence; the Raft WAL fsyncs every record, so acknowledged = call returned");
     rep.assume("promises are read from the real node's answers (RequestVoteResponse.vote_granted, AppendEntriesResponse.success, propose Ok)");
     let results: Vec<Stats> = par::spawn_workers(par::worker_count(), &[]);
